@@ -26,13 +26,17 @@ class Obligation:
 
 class Contract:
     def __init__(self, qual, params=None, requires=(), ensures=(), raises=None, modifies=None, loops=None, result=None,
-                 props=(), pure=False, ghost=None, trusted=False, no_raise=True, old_names=None, note="", lemmas=(), allocates=False):
+                 props=(), pure=False, ghost=None, trusted=False, no_raise=True, old_names=None, note="", lemmas=(), allocates=False, cases=()):
         self.qual = qual
         self.params = params or {}          # name -> type descriptor
         self.requires = list(requires)      # [expr str]
         self.ensures = [(e if isinstance(e, tuple) else (f"post{k}", e)) for k, e in enumerate(ensures)]
         self.raises = raises or {}          # ExcName -> condition (over the entry state) under which raising is allowed
-        self.modifies = modifies or {}      # field -> expr str designating a list of refs whose field may change | "*"
+        self.modifies = dict(modifies or {})      # field -> expr str designating a list of refs whose field may change | "*"
+        if "@msgfields" in self.modifies:         # shorthand: every Message field of the designated objects
+            des = self.modifies.pop("@msgfields")
+            for f_ in ("message_type", "channel", "time", "note", "velocity", "control", "program", "numerator", "denominator", "key"):
+                self.modifies.setdefault(f_, des)
         self.loops = loops or {}            # "L0" -> dict(fingerprint=..., inv=[(name, expr)], dec=expr|None)
         self.result = result                # type descriptor of the result (needed when used as a callee contract)
         self.props = list(props)
@@ -40,6 +44,7 @@ class Contract:
         self.trusted = trusted              # assumed (A): external function, no body obligations
         self.ghost = ghost or {}
         self.note = note
+        self.cases = list(cases)            # exhaustive case split of the entry state (each case verified separately; exhaustiveness is an obligation)
         self.allocates = allocates          # the callee may allocate objects (all field arrays are re-framed at call sites)
         self.lemmas = list(lemmas)          # [(lemma name, instance expr)]: instances of separately proved lemmas, assumed at entry
 
@@ -98,13 +103,13 @@ class Ctx:
 
 
 def mk_heap(ctx):
-    h = {"@len": z3.Array("@len", I, I), "@el": z3.Array("@el", I, z3.ArraySort(I, I)), "@alloc": z3.Array("@alloc", I, B)}
+    h = {"@len": z3.Array("H_len", I, I), "@el": z3.Array("H_el", I, z3.ArraySort(I, I)), "@alloc": z3.Array("H_alloc", I, B)}
     for cls, fields in ctx.schema.items():
         for f, t in fields.items():
             if f not in h:
                 h[f] = z3.Array(f, I, sort_of(t))
                 if parse_type(t)[2]:
-                    h[f + "?"] = z3.Array(f + "?", I, B)
+                    h[f + "?"] = z3.Array(f + "_isnone", I, B)
     return h
 
 
@@ -1493,10 +1498,10 @@ class Exec:
             if f in h.heap:
                 h.heap[f] = fresh(f, h.heap[f].sort())
                 if f + "?" in h.heap:
-                    h.heap[f + "?"] = fresh(f + "?", h.heap[f + "?"].sort())
+                    h.heap[f + "?"] = fresh(f + "_isnone", h.heap[f + "?"].sort())
         if lists:
             for a in ("@len", "@el", "@alloc"):
-                h.heap[a] = fresh(a, h.heap[a].sort())
+                h.heap[a] = fresh("H" + a[1:], h.heap[a].sort())
             r = fresh("r")
             h.pc.append(z3.ForAll([r], z3.Implies(entry_heap["@alloc"][r], h.heap["@alloc"][r]), patterns=[h.heap["@alloc"][r]]))
         if lists or fields:
